@@ -734,6 +734,9 @@ func (l *Lowerer) builtin(name string, ce *ast.CallExpr) ([]*Term, []types.Type)
 		for _, a := range ce.Args {
 			l.tr(a)
 		}
+		if ct := l.fr.contract; ct != nil && ct.NoPanic != "" && l.fr.parent == nil {
+			l.assertOb("ensures", ct.NoPanic, "nopanic: "+l.exprText(ce)+" is not reachable", ce, tFalse, l.curProps)
+		}
 		l.safety("panic", l.exprText(ce), ce, tFalse)
 		l.assume(tFalse)
 		return nil, nil
